@@ -324,6 +324,11 @@ func VerifyHashed(pubx, puby, e, r, s []byte) (bool, error) {
 		return false, err
 	}
 
+	// the standard requires (x1, y1) to be a finite point: the point at infinity has no affine x
+	if result.IsInfinity() {
+		return false, errors.New("[s]G + [t]P is the point at infinity")
+	}
+
 	R := result.GetAffineX_Unsafe()
 	eInt.SetBytes(e)
 	R.Add(R, &eInt)
